@@ -88,6 +88,12 @@ def handleKeys (_D : Dev) : List String → Option String
       | some ver => String.ofList (xkeyEnc sha256d ⟨ver, depth, fp, child, chain, kd⟩)
       | none => "noprefix"
     pure (two r r)
+  | ["xkey_import", s] =>
+    -- accept / refuse decision of the model for an extended-key string (payload after the version when accepted)
+    let r := match xkeyImport sha256d s.toList with
+      | none => "none"
+      | some k => "accept " ++ toHex ((xkeyPayload k).drop 4)
+    some (two r r)
   | ["xkey_dec", s] => do
     let r := match xkeyDec sha256d s.toList with
       | none => "none"
